@@ -31,7 +31,9 @@ type c18Field struct {
 
 // the schema lattice: valid, boundary, invalid-type and invalid-value representatives per field
 var c18Fields = []c18Field{
-	{"mode", [2]string{`"dpdk"`, c18Absent}, []string{c18Absent, `"af_xdp"`, `"af_packet"`, `"cndp"`, `"sim"`, `""`, `"xdp"`, `5`, `"dpdk"`}},
+	{"mode", [2]string{`"dpdk"`, c18Absent}, []string{c18Absent, `"af_xdp"`, `"af_packet"`, `"cndp"`, `"sim"`, `""`, `"xdp"`, `5`, `"dpdk"`,
+		// near misses that embed a supported mode
+		`"dpdk2"`, `" dpdk"`, `"dpdk "`, `"DPDK"`, `"xsim"`, `"sim2"`, `"af_xdp2"`, `"xaf_packet"`, `"cndp_zc"`, `"dpdk|sim"`, `"dpdk\nsim"`}},
 	{"enable_p4rt", [2]string{`false`, `true`}, []string{c18Absent, `true`, `false`, `"yes"`}},
 	{"p4rtciface.access_ip", [2]string{c18Absent, `"172.17.0.1/32"`}, []string{c18Absent, `"172.17.0.1/32"`, `"172.17.0.1"`, `""`, `7`, `"2001:db8::1/64"`}},
 	{"p4rtciface.default_tc", [2]string{c18Absent, c18Absent}, []string{`0`, `3`, `2`, `255`, `256`, `-1`, `"3"`}},
